@@ -262,9 +262,34 @@ def gen_rules_case(rnd, fam='rules'):
                 body.append('var(k)')
         if rnd.random() < 0.3:
             un = 'u' if rnd.random() < 0.85 else 'host'
-            l += ' use=%s:%s' % (un, S(rnd.choice(('uu', 'H'))))
+            uval = rnd.choice(['uu'] + hn + hn)
+            if rnd.random() < 0.5:
+                # the closure variable as the constant side of a name comparison (a recogniser that took closure
+                # variables for constants would index this; the loop variable or the target may hide the variable)
+                g = ('eq(%s,var(%s))' % (HOSTN, un)) if rnd.random() < 0.7 else ('eq(var(%s),%s)' % (un, HOSTN))
+                if svc:
+                    if rnd.random() < 0.5:
+                        g = 'and(%s,eq(%s,%s))' % (g, SVCN, S(rnd.choice(sn)))
+                    else:
+                        uval = rnd.choice(sn)
+                        g = 'and(eq(%s,%s),eq(%s,var(%s)))' % (HOSTN, S(rnd.choice(hn)), SVCN, un)
+                if rnd.random() < 0.3:
+                    g = 'or(%s,%s)' % (g, gen_filter(rnd, svc, hn, sn, CONSTS))
+                l = re.sub(r' a=\S+', ' a=' + g, l, count=1)
+                if ' fk=k ' in l and rnd.random() < 0.3:
+                    l = l.replace(' fk=k ', ' fk=%s ' % un)      # for (u in ...) use (u): the loop variable hides the closure variable
+                    body = [b for b in body if b != 'var(k)']
+            l += ' use=%s:%s' % (un, S(uval))
             if un == 'u':
                 body.append('var(u)')
+        if ' ft=' in l and rnd.random() < 0.25:
+            # for-only rule: no assign where (the parser supplies `true`), optionally ignore where
+            l = re.sub(r' a2?=\S+', '', l)
+            if ' i=' not in l and rnd.random() < 0.8:
+                ig = cmp_atom(rnd, 'host', rnd.choice(hn), CONSTS, True)
+                if svc and rnd.random() < 0.5:
+                    ig = 'and(%s,%s)' % (ig, cmp_atom(rnd, 'service', rnd.choice(sn), CONSTS, True))
+                l += ' i=' + ig
         if body:
             l += ' body=' + ';'.join(body[:4])
         if kind == 2:
@@ -288,15 +313,21 @@ def gen_api_case(rnd):
             if rnd.random() < 0.5:
                 fvc[k] = CONSTS[k]
         tv = None
-        if rnd.random() < 0.06:
-            tv = rnd.choice(('host', 'service', 'obj'))
+        if rnd.random() < 0.12:
+            # a filter variable named like something EvaluateFilter sets: obj, the type variables, every navigation field
+            tv = rnd.choice(('host', 'service', 'obj', 'check_command', 'check_period', 'event_command', 'command_endpoint'))
             fvc[tv] = S(rnd.choice(hn))
         f = gen_filter(rnd, svc, hn + ['zz'] * (rnd.random() < 0.2), snames + ['S!T'] * (rnd.random() < 0.1), fvc or {'ArCH': S('H')})
         if tv and rnd.random() < 0.6:
             # the filter variable named like the target used as the constant side of a name comparison
-            g = 'eq(%s,var(%s))' % (HOSTN, tv)
+            g = ('eq(%s,var(%s))' % (HOSTN, tv)) if rnd.random() < 0.7 else ('eq(var(%s),%s)' % (tv, HOSTN))
             if svc:
-                g = 'and(%s,eq(%s,%s))' % (g, SVCN, S(rnd.choice(snames)))
+                if rnd.random() < 0.5:
+                    g = 'and(%s,eq(%s,%s))' % (g, SVCN, S(rnd.choice(snames)))
+                else:
+                    # ... or as the constant side of the service name comparison
+                    fvc[tv] = S(rnd.choice(snames))
+                    g = 'and(eq(%s,%s),eq(var(%s),%s))' % (HOSTN, S(rnd.choice(hn)), tv, SVCN)
             f = g if rnd.random() < 0.6 else 'or(%s,%s)' % (g, f)
         l = 'ar_api to=%s f=%s' % ('svc' if svc else 'host', f)
         if fvc:
@@ -326,7 +357,7 @@ def classify(case, detail, impl_lines):
         return 'for-error-on-unindexed-target'
     if 'api-' in detail:
         # a fixed finding coming back (fix reverted) keeps its name
-        if 'depends-on-fast-path' in detail and any(l.startswith('ar_api') and re.search(r'fv=(?:.*,)?(host|service|obj):', l) for l in case['lines']):
+        if 'depends-on-fast-path' in detail and any(l.startswith('ar_api') and re.search(r'fv=(?:.*,)?(host|service|obj|check_command|check_period|event_command|command_endpoint):', l) for l in case['lines']):
             return 'api-filter-var-named-like-target'
         return 'api-fast-path'
     if 'depends-on-fast-path' in detail:
